@@ -31,6 +31,7 @@ template <class T, class Al> struct is_sized<std::list<T, Al>> : std::true_type 
 template <class T, class Al> struct is_sized<std::deque<T, Al>> : std::true_type {};
 template <class K, class V, class C, class Al> struct is_sized<std::map<K, V, C, Al>> : std::true_type {};
 template <class K, class C, class Al> struct is_sized<std::set<K, C, Al>> : std::true_type {};
+template <class K, class C, class Al> struct is_sized<std::multiset<K, C, Al>> : std::true_type {};
 template <class T> struct is_u8str : std::false_type {};
 template <> struct is_u8str<std::string> : std::true_type {};
 template <> struct is_u8str<std::u16string> : std::true_type {};
@@ -100,7 +101,7 @@ template <class A, class K> static std::string execGet(A& archive, const K& key,
 		TGT("v_f32", std::vector<float>, = { 1.5f }) TGT("v_f64", std::vector<double>, = { 1.5 }) TGT("v_bool", std::vector<bool>, = { true })
 		TGT("v_str", std::vector<std::string>, = { "~a~", "~b~" }) TGT("vv_i32", std::vector<std::vector<int32_t>>, = { { 7 }, { 8, 9 } })
 		TGT("l_i64", std::list<int64_t>, = { 7, 8, 9 }) TGT("d_u16", std::deque<uint16_t>, = { 7, 8, 9 })
-		TGT("tup", Tup3, = { -7, "~t~", -7.5 }) TGT("m_s_i32", MapSI, = { { "~k~", 7 } })
+		TGT("s_i32", std::set<int32_t>, = { 7, 8, 9 }) TGT("ms_i32", std::multiset<int32_t>, = { 7, 7 }) TGT("tup", Tup3, = { -7, "~t~", -7.5 }) TGT("m_s_i32", MapSI, = { { "~k~", 7 } })
 	}
 #undef TGT
 	return "{\"error\":\"type " + type + "\"}";
